@@ -460,6 +460,63 @@ def expected(prog: Program, entry: str, data: dict, sem: Sem | None = None,
 # ---------------------------------------------------------------------------
 
 
+# -- spellings ----------------------------------------------------------------
+# The same abstract program can be written in many ways.  _STYLE = None is the plain
+# spelling; (seed, wc) picks, per block item and deterministically from the item's own
+# content (so that the model's rendition of a raw body agrees with the emitted source),
+# how names are quoted, whether endblock repeats the name, whitespace-control markers
+# on the block tags (only when wc: the program's texts carry no edge whitespace) and the
+# {% liquid %} line form.
+_STYLE: tuple[int, bool] | None = None
+_KEYWORDS = {"required", "if", "true", "false", "nil", "null", "and", "or", "not", "in",
+             "contains", "with", "for", "as", "else", "blank", "empty", "reversed", "limit",
+             "offset", "cols"}
+
+
+def set_style(style: tuple[int, bool] | None) -> None:
+    global _STYLE  # noqa: PLW0603
+    _STYLE = style
+
+
+def _h(*parts: object) -> int:
+    import zlib
+
+    return zlib.crc32(repr(parts).encode("utf-8"))
+
+
+def spell_name(name: str, h: int) -> str:
+    import re
+
+    opts = ["'%s'" % name, '"%s"' % name]
+    if re.fullmatch(r"[^\W\d][\w-]*", name) and name not in _KEYWORDS:
+        opts += [name, name]
+    return opts[h % len(opts)]
+
+
+def _emit_block_styled(it: list) -> str:
+    seed, wc = _STYLE  # type: ignore[misc]
+    h = _h(seed, it[1], bool(it[2]), it[4], len(it[3]))
+    name = spell_name(it[1], h)
+    end = "" if it[4] is None else " " + spell_name(it[4], h // 7)
+    req = " required" if it[2] else ""
+    simple = all(
+        c[0] == "s" or (c[0] == "t" and "'" not in c[1] and "\n" not in c[1] and c[1].strip() == c[1] and c[1])
+        for c in it[3]
+    )
+    if (len(it) > 5 and it[5] == "liquid") or (simple and h % 6 == 0):
+        lines = ["block %s%s" % (name, req)]
+        for c in it[3]:
+            lines.append("echo block.super" if c[0] == "s" else "echo '%s'" % c[1])
+        lines.append("endblock" + end)
+        return "{%% liquid\n%s\n%%}" % "\n".join(lines)
+    marks = [("{%", "%}"), ("{%-", "-%}"), ("{%~", "~%}"), ("{%-", "%}"), ("{%", "-%}")]
+    o1, c1 = marks[(h // 11) % len(marks)] if wc else marks[0]
+    o2, c2 = marks[(h // 13) % len(marks)] if wc else marks[0]
+    sp = ("  ", " ", "\t")[(h // 17) % 3]
+    return "%s block%s%s%s %s%s%s endblock%s %s" % (
+        o1, sp, name, req, c1, emit_items(it[3]), o2, end, c2)
+
+
 def emit_items(items: list) -> str:
     parts: list[str] = []
     for it in items:
@@ -471,6 +528,8 @@ def emit_items(items: list) -> str:
             parts.append("{{ %s }}" % it[1])
         elif k == "s":
             parts.append("{{ block.super }}")
+        elif k == "b" and _STYLE is not None:
+            parts.append(_emit_block_styled(it))
         elif k == "b" and len(it) > 5 and it[5] == "liquid":
             lines = ["block %s%s" % (it[1], " required" if it[2] else "")]
             for c in it[3]:
@@ -521,11 +580,34 @@ def emit_items(items: list) -> str:
             kw = "".join(f", {a}: {b}" for a, b in it[3].items())
             tgt = it[2][1:] if it[2].startswith("@") else "'%s'" % it[2]
             parts.append("{%% %s %s%s %%}" % (it[1], tgt, kw))
+        elif k == "x" and _STYLE is not None and _h(_STYLE[0], it[1]) % 2:
+            parts.append('{%% extends "%s" %%}' % it[1])
         elif k == "x":
             parts.append("{%% extends '%s' %%}" % it[1])
         else:  # pragma: no cover
             raise ValueError(f"unknown item {it!r}")
     return "".join(parts)
+
+
+def rename_blocks(prog: Program, mapping: dict[str, str]) -> Program:
+    """The same program with its block names changed (endblock names that repeat the
+    block's name follow; mismatching ones are left alone)."""
+
+    def items_(items: list) -> list:
+        out = []
+        for it in items:
+            it = list(it)
+            if it[0] == "b":
+                if it[4] == it[1]:
+                    it[4] = mapping.get(it[4], it[4])
+                it[1] = mapping.get(it[1], it[1])
+            bi = body_index(it)
+            if bi is not None:
+                it[bi] = items_(it[bi])
+            out.append(it)
+        return out
+
+    return {n: items_(items) for n, items in prog.items()}
 
 
 def emit(prog: Program) -> dict[str, str]:
